@@ -58,7 +58,13 @@ def run(ctx):
                                              nstores=ctx.pick(5, 7 if big else 5), ndrains=3,
                                              nqueries=2, ticks=(st == 'timesorted'))       # cache queries (single and bulk) interleaved with stores and drains
         cfg = dict(strategy=st, max=(ctx.rng.choice([2, 3]) if w % 2 == 1 else None), flow=False, lag=lag)   # every second workload: bounded cache (refusals)
+        if lag and w % 2 == 0:
+          cfg['shutdown_flush'] = True      # the run ends with the shutdown hook's MIN_TIMESTAMP_LAG = 0 instead of time passing
         expl.append((cfg, r_ops, w_ops, ctx.pick(1, 2), ctx.pick(40, 200), ctx.pick(150, 1200)))
+  # an orderly shutdown with datapoints younger than MIN_TIMESTAMP_LAG in the cache: the writer has already drained once
+  # with the lag in force; the shutdown hook sets the lag to 0 and the final passes must hand out everything
+  r_ops = [('store', 'm1', 1, 1), ('store', 'm2', 1, 2), ('tick', 5), ('store', 'm2', 5, 3), ('store', 'm3', 4, 4), ('store', 'm1', 5, 5)]
+  expl.append((dict(strategy='timesorted', max=None, flow=False, lag=2, shutdown_flush=True), r_ops, [('drain',)] * 2, ctx.pick(1, 2), ctx.pick(10, 60), ctx.pick(60, 400)))
   # scale: hundreds of datapoints per series (the size-ordered strategies must still pick the largest)
   for st in ('bucketmax', 'max'):
     sizes = [ctx.pick(300, 700), ctx.pick(270, 400), 5]
